@@ -362,6 +362,7 @@ class RTFPage(BaseModel):
             self._set_landscape_defaults()
 
         self._validate_margin_length()
+        self._validate_resolved_col_width()
         return self
 
     def _set_portrait_defaults(self) -> None:
@@ -384,6 +385,19 @@ class RTFPage(BaseModel):
         """Validate that margin has exactly 6 values."""
         if self.margin is not None and len(self.margin) != 6:
             raise ValueError("Margin length must be 6.")
+
+    def _validate_resolved_col_width(self) -> None:
+        """Validate the table width derived from the page width.
+
+        An explicit ``col_width`` is checked by the field validator; the default
+        (page width minus the side allowance) can still come out as zero or
+        negative for a narrow page.
+        """
+        if self.col_width is not None and self.col_width <= 0:
+            raise ValueError(
+                "Col_width must be greater than 0: page width "
+                f"{self.width} leaves no room for the table."
+            )
 
 
 class RTFPageHeader(RTFTextComponent):
